@@ -428,10 +428,14 @@ func runCheck(id, tier string) int {
 	// Replays for unknown violations.
 	repDir := filepath.Join(root(), "replays", id)
 	var replayPaths []string
-	for i, v := range unknown {
-		if i >= 10 {
-			break
+	perSig := map[string]int{}
+	written := 0
+	for _, v := range unknown {
+		if perSig[v.Signature] >= 3 || written >= 15 {
+			continue
 		}
+		perSig[v.Signature]++
+		written++
 		os.MkdirAll(repDir, 0o755)
 		rp := map[string]interface{}{"property": id, "tier": tier, "seed": seed, "variant": v.Variant, "idx": v.Idx, "signature": v.Signature, "what": v.What, "detail": v.Detail}
 		b, _ := json.MarshalIndent(rp, "", " ")
